@@ -105,6 +105,20 @@ Theorem C04_l1_whole_column_write : forall (w : world) p ti name r,
 Proof. exact setcol_existing_refines. Qed.
 Print Assumptions C04_l1_whole_column_write.
 
+(* dm[i].name = value: the generated bound test of _getrow, the creation of a missing column with the table's default
+   type, then the cell write; a value that cannot be coerced raises after the column was created, as in L0 *)
+Theorem C04_l1_row_write : forall (w : world) p ti name i v,
+  pool w = map abs p -> winv p ->
+  match lstep p (OSetCell ti name (ARow i) (RScalar v)) with
+  | LUpd j t' => step w (OSetCell ti name (ARow i) (RScalar v)) = (put w j (abs t'), OkUnit)
+  | LErrUpd j t' => exists e, step w (OSetCell ti name (ARow i) (RScalar v)) = (put w j (abs t'), Err e)
+  | LErr => step w (OSetCell ti name (ARow i) (RScalar v)) = (w, Err IndexError)
+  | LSkip => True
+  | LNew _ => False
+  end.
+Proof. exact setcell_row_refines. Qed.
+Print Assumptions C04_l1_row_write.
+
 (* DataMatrix._getrow: the regenerated bound test rejects exactly the indices Python cannot normalise *)
 Theorem C04_getrow_bound_kernel : forall i n,
   k_getrow_oob i (Z.of_nat n) = match norm_index n i with Some _ => false | None => true end.
